@@ -123,6 +123,15 @@ def _fixed_complex(n, m, tag):
 
 
 def fixed_unitary(n, tag=0):
+    if tag == "tiny":
+        # real Givens rotation by 3e-3 between the two highest levels below 3: turns a number state into a vector whose
+        # dominant amplitude is 1 - 4.5e-6 (not a basis state: 9e-6 of the population sits next door)
+        u = np.eye(n, dtype=complex)
+        if n >= 2:
+            a, b = (1, 2) if n >= 3 else (0, 1)
+            c, s_ = np.cos(3e-3), np.sin(3e-3)
+            u[a, a] = c; u[b, b] = c; u[a, b] = -s_; u[b, a] = s_
+        return u
     q, r = np.linalg.qr(_fixed_complex(n, n, tag))
     ph = np.diag(r) / np.abs(np.diag(r))
     return q * ph
